@@ -16,7 +16,9 @@ import (
 
 var c06Ops = []string{"+", "-", "*", "/", "%", "==", "!=", "<", "<=", ">", ">=", "~", "!~", "&&", "||", "=", "+=", "-=", "*=", "/="}
 
-func c06IsAssign(op string) bool { return op == "=" || len(op) == 2 && op[1] == '=' && op != "==" && op != "!=" && op != "<=" && op != ">=" }
+func c06IsAssign(op string) bool {
+	return op == "=" || len(op) == 2 && op[1] == '=' && op != "==" && op != "!=" && op != "<=" && op != ">="
+}
 
 type c06Shape struct{ L, R *c06Shape }
 
